@@ -71,12 +71,28 @@ type NodePool struct {
 	LimitMem      *int64            `json:"limitMem"`
 }
 
+// LabelSel is a metav1.LabelSelector: MatchLabels AND MatchExprs (In | NotIn | Exists | DoesNotExist).  A non-nil selector
+// without any requirement selects everything.
+type LabelSel struct {
+	MatchLabels map[string]string `json:"matchLabels,omitempty"`
+	MatchExprs  []KExpr           `json:"matchExprs,omitempty"`
+}
+
 type PodAffinity struct {
 	TopologyKey string            `json:"topologyKey"`
 	MatchLabels map[string]string `json:"matchLabels"`
 	Anti        bool              `json:"anti"`
 	Required    bool              `json:"required"`
 	Weight      int32             `json:"weight"`
+	// MatchExprs are the matchExpressions of the term's label selector (ANDed with MatchLabels)
+	MatchExprs []KExpr `json:"matchExprs,omitempty"`
+	// Namespaces / NamespaceSelector: the namespaces the term applies to (Kubernetes: the union of the listed namespaces and
+	// those the selector matches; both unset = the pod's own namespace; an EMPTY selector {} = every namespace)
+	Namespaces        []string  `json:"namespaces,omitempty"`
+	NamespaceSelector *LabelSel `json:"namespaceSelector,omitempty"`
+	// MatchLabelKeys: the pod's own values of these label keys are ANDed into the selector.  For (anti-)affinity terms the API
+	// server performs that merge when the pod is created; BuildPod does the same (the scheduler only ever sees merged terms).
+	MatchLabelKeys []string `json:"matchLabelKeys,omitempty"`
 }
 
 type Spread struct {
@@ -87,6 +103,17 @@ type Spread struct {
 	MatchLabels       map[string]string `json:"matchLabels"`
 	NodeAffinityHonor *bool             `json:"nodeAffinityHonor"` // nil = default (Honor)
 	NodeTaintsHonor   *bool             `json:"nodeTaintsHonor"`   // nil = default (Ignore)
+	// MatchExprs are the matchExpressions of the constraint's label selector (ANDed with MatchLabels).  On Kubernetes >= 1.34
+	// the API server has already merged "key In [value]" for every matchLabelKey into them; the scenario is literal about that.
+	MatchExprs []KExpr `json:"matchExprs,omitempty"`
+	// MatchLabelKeys: the pod's own values of these label keys are ANDed into the selector at scheduling time
+	MatchLabelKeys []string `json:"matchLabelKeys,omitempty"`
+}
+
+// Volume is a pod volume backed by the PersistentVolumeClaim `Claim` of the pod's namespace.
+type Volume struct {
+	Name  string `json:"name"`
+	Claim string `json:"claim"`
 }
 
 type Preferred struct {
@@ -107,6 +134,16 @@ type Pod struct {
 	Affinity     []PodAffinity     `json:"affinity"`
 	Spreads      []Spread          `json:"spreads"`
 	Daemon       bool              `json:"daemon"` // owned by a DaemonSet (bound pods only)
+	// Namespace of the pod ("" = "default").  Pod NAMES stay unique across namespaces (outcomes are keyed by name).
+	Namespace string   `json:"namespace,omitempty"`
+	Volumes   []Volume `json:"volumes,omitempty"`
+}
+
+func (p *Pod) NS() string {
+	if p.Namespace == "" {
+		return "default"
+	}
+	return p.Namespace
 }
 
 type Node struct {
@@ -131,6 +168,42 @@ type DaemonSet struct {
 	HostPorts    []HostPort        `json:"hostPorts"`
 }
 
+// Namespace is a namespace object with its labels (every namespace also carries kubernetes.io/metadata.name=<name>).
+// Namespaces that pods or claims use without being declared exist too, without extra labels.
+type Namespace struct {
+	Name   string            `json:"name"`
+	Labels map[string]string `json:"labels,omitempty"`
+}
+
+// PV is a PersistentVolume; Terms is its required node affinity (OR of AND-ed expressions; none = reachable everywhere).
+type PV struct {
+	Name  string    `json:"name"`
+	Terms [][]KExpr `json:"terms,omitempty"`
+}
+
+// StorageClass: Topologies are its allowedTopologies (OR of AND-ed "key In values" expressions; none = anywhere);
+// Immediate = volumeBindingMode Immediate (otherwise WaitForFirstConsumer).
+type StorageClass struct {
+	Name       string    `json:"name"`
+	Topologies [][]KExpr `json:"topologies,omitempty"`
+	Immediate  bool      `json:"immediate,omitempty"`
+}
+
+// PVC is a PersistentVolumeClaim: bound to the PV VolumeName, or unbound and to be provisioned through StorageClass.
+type PVC struct {
+	Name         string `json:"name"`
+	Namespace    string `json:"namespace,omitempty"` // "" = "default"
+	VolumeName   string `json:"volumeName,omitempty"`
+	StorageClass string `json:"storageClass,omitempty"`
+}
+
+func (c *PVC) NS() string {
+	if c.Namespace == "" {
+		return "default"
+	}
+	return c.Namespace
+}
+
 type Scenario struct {
 	ITs              []IT        `json:"its"`
 	Pools            []NodePool  `json:"pools"`
@@ -145,4 +218,9 @@ type Scenario struct {
 	// PodEventsFirst delivers the event of every bound pod to the cluster state BEFORE its node is tracked (the update fails
 	// with NotFound, as it does when informers race) and does not redeliver it before the pass
 	PodEventsFirst bool `json:"podEventsFirst"`
+	// optional vocabulary (absent in older corpus files): namespaces with labels, storage
+	Namespaces     []Namespace    `json:"namespaces,omitempty"`
+	StorageClasses []StorageClass `json:"storageClasses,omitempty"`
+	PVs            []PV           `json:"pvs,omitempty"`
+	PVCs           []PVC          `json:"pvcs,omitempty"`
 }
